@@ -348,7 +348,9 @@ pub fn classify(clause: &str, detail: &str, _trace: &[String]) -> Option<&'stati
                 Some("C13/peering-not-supported")
             } else if detail.contains("one-hop packet") && detail.contains("[one-hop path that must be refused]") {
                 Some("C13/one-hop-checks-skipped")
-            } else if detail.contains("[transits its destination AS]") && detail.contains("over-acceptance") {
+            } else if detail.contains("[transits its destination AS]") {
+                // the SDK's router carries the packet on through its destination AS where the reference refuses it:
+                // whatever happens to it further on (delivery on the second visit, a down link, ...) is the same finding
                 Some("C13/over-acceptance/transit-through-destination-as")
             } else {
                 None
@@ -357,13 +359,6 @@ pub fn classify(clause: &str, detail: &str, _trace: &[String]) -> Option<&'stati
         "C14/bad-checksum" => Some("C14/checksum-covers-only-the-pseudo-header"),
         "C11/failure-changes-path-bytes" => Some("C11/refused-packet-leaves-with-changed-path-bytes"),
         "C13/simulator-error" if detail.contains("one-hop packet") && detail.contains("no link for") => Some("C13/one-hop-checks-skipped"),
-        "C01/offered-path-not-forwardable-by-the-sdk-router" => {
-            if detail.contains("[peering]") {
-                Some("C01/sdk-router-rejects/peering")
-            } else {
-                None
-            }
-        }
         "C01/offered-path-not-forwardable" => {
             if detail.contains("[peering]") {
                 Some("C01/peering-path-fails-authentication")
